@@ -80,16 +80,21 @@ fn deliveries(cfg: &RunCfg, rec: &RunRecord) -> Vec<Deliv> {
                 items,
                 impossible,
                 skipped,
+                skip_at,
                 ..
             } => {
                 if *impossible {
                     continue;
                 }
+                // j: offset inside the chunk; the offsets [skip_at, skip_at + skipped) were
+                // passed over with nth and never seen by the caller
                 for j in 0..(*announced).max(items.len() + skipped) {
-                    let o = if j >= *skipped {
-                        items.get(j - skipped)
-                    } else {
+                    let o = if j < *skip_at {
+                        items.get(j)
+                    } else if j < *skip_at + *skipped {
                         None
+                    } else {
+                        items.get(j - skipped)
                     };
                     v.push(Deliv {
                         call: ci,
@@ -405,6 +410,7 @@ pub fn evaluate_single(cfg: &RunCfg, rec: &RunRecord) -> (Vec<Finding>, Facts) {
                 exhausted,
                 impossible,
                 skipped,
+                skip_at,
                 finish,
                 finish_count,
                 finish_last,
@@ -416,12 +422,9 @@ pub fn evaluate_single(cfg: &RunCfg, rec: &RunRecord) -> (Vec<Finding>, Facts) {
                 let _ = hint_bad;
                 let n = c.arg;
                 let skipped = *skipped;
+                let skip_at = *skip_at;
                 let want_len = |j: usize| -> usize {
-                    if j == 0 {
-                        *announced
-                    } else {
-                        announced.wrapping_sub(skipped + j)
-                    }
+                    announced.wrapping_sub(crate::work::chunk_consumed_before(skipped, skip_at, j))
                 };
                 let mut bad: Option<String> = None;
                 if *impossible {
@@ -448,10 +451,13 @@ pub fn evaluate_single(cfg: &RunCfg, rec: &RunRecord) -> (Vec<Finding>, Facts) {
                 } else if items
                     .iter()
                     .enumerate()
-                    .any(|(j, o)| position(cfg, o) != (*begin + skipped + j) as i128)
+                    .any(|(j, o)| {
+                        position(cfg, o)
+                            != (*begin + crate::work::chunk_off(skipped, skip_at, j)) as i128
+                    })
                 {
                     bad = Some(format!(
-                        "elements are not the consecutive positions from begin index {begin} (first taken with nth({skipped})): {:?}",
+                        "elements are not the consecutive positions from begin index {begin} (nth({skipped}) called after {skip_at} elements): {:?}",
                         items.iter().map(|o| position(cfg, o)).collect::<Vec<_>>()
                     ));
                 } else if *finish == 1
@@ -658,7 +664,7 @@ pub fn evaluate_single(cfg: &RunCfg, rec: &RunRecord) -> (Vec<Finding>, Facts) {
                         }
                     }
                 }
-                (k, Res::Chunk { begin, announced, impossible, items, exhausted, skipped, .. }) if k.is_pull() => {
+                (k, Res::Chunk { begin, announced, impossible, items, exhausted, skipped, skip_at, .. }) if k.is_pull() => {
                     if *impossible || c.arg == 0 {
                         representable = false;
                         continue;
@@ -667,7 +673,10 @@ pub fn evaluate_single(cfg: &RunCfg, rec: &RunRecord) -> (Vec<Finding>, Facts) {
                     let consistent = items
                         .iter()
                         .enumerate()
-                        .all(|(j, o)| position(cfg, o) == (*begin + skipped + j) as i128)
+                        .all(|(j, o)| {
+                            position(cfg, o)
+                                == (*begin + crate::work::chunk_off(*skipped, *skip_at, j)) as i128
+                        })
                         && items.len() + skipped <= *announced
                         && (!*exhausted || items.len() + skipped == *announced);
                     if !consistent && !chunk_flagged {
@@ -1510,6 +1519,7 @@ pub fn evaluate_c19(cfg: &RunCfg, rec: &RunRecord) -> (Vec<Finding>, Facts) {
                         exhausted: false,
                         impossible: false,
                         skipped: 0,
+                        skip_at: 0,
                         finish: 0,
                         finish_count: None,
                         finish_last: None,
